@@ -35,6 +35,7 @@ MODULES = [('Demographics1D', 'dadi.Demographics1D'), ('Demographics2D', 'dadi.D
 PTS = (16, 20, 24)
 BOUNDS = dict(size=(1e-2, 100.0), time=(0.0, 3.0), mig=(0.0, 10.0), frac=(0.02, 0.98))
 SEL_MAX = 3.0
+MIG_RESOLVED = 8.0      # m * max(1, largest size) up to which the grids 16..24 resolve migration (no oscillation)
 TF_DEFAULT = 1e-3
 # seconds per implicit step, (dimension, pts) -> (constant parameters, time-dependent parameters); measured in this sandbox
 STEP_COST = {1: {16: (2e-5, 4e-5), 20: (2e-5, 4e-5), 24: (3e-5, 5e-5)},
@@ -70,8 +71,18 @@ def coarse(x, bits=30):
     m, e = math.frexp(float(x))
     return math.ldexp(round(m * (1 << bits)) / (1 << bits), e)
 
+def resolved(p):
+    """the regime in which the grids 16..24 resolve the dynamics: effective migration m*nu and selection |gamma|*nu of a few
+    units.  Beyond it the central-difference scheme oscillates on these coarse grids and from_phi returns small negative
+    entries (e.g. sym_mig(96, 10.3, m=4.84, T=0.57), pts=16: -0.018, gone at pts=20) — a resolution limit, not judged."""
+    big = max([1.0] + [v for n, v in p.items() if kind(n) == 'size'])
+    ms = [v for n, v in p.items() if kind(n) == 'mig'] + [0.0]
+    gs = [abs(v) for n, v in p.items() if kind(n) == 'sel'] + [0.0]
+    return max(ms) * big <= MIG_RESOLVED * (1 + 1e-9) and max(gs) * big <= SEL_MAX * (1 + 1e-9)
+
 def draw(rng, names, edge=True):
     p = {}
+    want_resolved = rng.random() < 0.5
     for n in names:
         k = kind(n); u = rng.random()
         if k == 'size':
@@ -100,6 +111,8 @@ def draw(rng, names, edge=True):
     for n in names:
         if kind(n) == 'sel':
             p[n] = 0.0 if (edge and rng.random() < 0.12) else coarse(rng.uniform(-SEL_MAX, SEL_MAX) / big)
+        elif kind(n) == 'mig' and want_resolved and p[n] * big > MIG_RESOLVED:
+            p[n] = coarse(rng.uniform(0, MIG_RESOLVED / big))
     return p
 
 def model_dim(m):
@@ -397,7 +410,7 @@ def k_tables(chk, ctx, models):
         ctx['_wf'][n] = (r == 'ok 1')
     return tbl
 
-def spectrum_checks(dadi, fs, ns, pts):
+def spectrum_checks(dadi, fs, ns, pts, judge_sign=True):
     """the clauses of the property about one returned spectrum; list of (key, description)"""
     out = []
     if not isinstance(fs, dadi.Spectrum): return [('type', 'returns %s, not a Spectrum' % type(fs).__name__)]
@@ -407,7 +420,7 @@ def spectrum_checks(dadi, fs, ns, pts):
     data = np.asarray(fs.data, dtype=float); mask = np.ma.getmaskarray(fs)
     vals = data[~mask]
     if not np.all(np.isfinite(vals)): out.append(('nonfinite', '%d non-finite entries' % int(np.sum(~np.isfinite(vals)))))
-    elif vals.size and vals.min() < -1e-12 * max(1.0, float(np.abs(vals).max())):
+    elif judge_sign and vals.size and vals.min() < -1e-12 * max(1.0, float(np.abs(vals).max())):
         out.append(('negative', 'entry %r < 0 (largest entry %r)' % (float(vals.min()), float(vals.max()))))
     xx1 = float(dadi.Numerics.default_grid(pts)[1])
     ex = getattr(fs, 'extrap_x', None)
@@ -438,7 +451,9 @@ def run_model(chk, ctx, m, p, ns, record=True):
             return False
         ctx['_t_models'] = ctx.get('_t_models', 0.0) + time.time() - t0
         chk.l3((name, pts))
-        for key, what in spectrum_checks(dadi, fs, ns, pts):
+        judge = resolved(p)
+        if pts == PTS[0]: chk.stat('sign_judged' if judge else 'sign_not_judged(unresolved regime)')
+        for key, what in spectrum_checks(dadi, fs, ns, pts, judge):
             chk.fail('%s:%s' % (name, key), '%s(%r, %r, %d): %s' % (name, v, ns, pts, what), case_input('run', m, p, ns, pts))
             ok = False
         if rec is not None:
@@ -686,7 +701,7 @@ def run(chk, ctx):
     models, byname = setup(chk, ctx)
     chk.rule = ('every function exposing __param_names__ in the six model modules (found by run-time introspection) is run at parameters '
                 'drawn inside the documented bounds by parameter name (nu*: log-uniform [1e-2,100] + the bounds and 1; T*: uniform [0,3] + 0 and 3; '
-                'm*: 0 / small / uniform [0,10] / 10; s, f, F: uniform (0.02,0.98); gamma*: 0 or uniform with |gamma|*max(1, largest size) <= 3 — the grids 16..24 do not resolve stronger selection); the epoch lengths are then shrunk '
+                'm*: 0 / small / uniform [0,10] / 10, in half of the draws reduced to m*max(1, largest size) <= 8; s, f, F: uniform (0.02,0.98); gamma*: 0 or uniform with |gamma|*max(1, largest size) <= 3); non-negativity is judged only in the regime the grids 16..24 resolve (m*nu <= 8, |gamma|*nu <= 3), everything else on every draw; the epoch lengths are then shrunk '
                 '(inside [0,3]) so that the three runs pts=16,20,24 fit a time budget (the cost is T*max(1/(4 nu), sum m, |gamma|/2)/timescale_factor '
                 'steps). Distinct = (model, grid) / (model, wrong length) / nesting pair / (symmetric model, class). Nesting pairs and symmetric models: '
                 'hand table of Model/ModelPairs.lean, parameters of the simpler model drawn as above.')
